@@ -98,6 +98,11 @@ def probe_projects():
                rg.command_src("get_item", [("item_id", "i32"), ("on_event", "Channel<Item>"), ("opt_flag", "Option<bool>")], "Item") +
                rg.command_src("only_channel", [("on_progress_update", "Channel<i32>")], "i32"))
         add("default_parameter_case", ra, ra, src, config={"default_parameter_case": ra})
+        multi = (rg.struct_src("Item", [("user_id", "i32")]) + "use tauri::ipc::Channel;\n" +
+                 rg.command_src("process_data", [("job_id", "i32"), ("on_progress", "Channel<i32>"), ("on_log_line", "Channel<String>")], "Item") +
+                 rg.command_src("run_process", [("cmd_line", "String"), ("dry_run", "Option<bool>"), ("on_stdout", "Channel<String>"), ("on_stderr", "Channel<String>"), ("on_exit_code", "Channel<Item>")], "i32") +
+                 rg.command_src("two_channels_only", [("first_one", "Channel<i32>"), ("second_one", "Channel<Item>")], "()"))
+        add("several-channels", ra, ra, multi, config={"default_parameter_case": ra})
         add("default_field_case", ra, ra, src, config={"default_field_case": ra})
 
     # --- struct field: serde(rename = "...")
